@@ -66,6 +66,39 @@ MUTANTS = [
     M("c04-rotate-basis-transposed-U", "C04", (UN, "all_Us = Us[ints_size, :, int_sample, int_vp]", "all_Us = Us[ints_size, :, int_vp, int_sample]")),
     M("c04-X-not-normalised", "C04", (UN, "[[[1.0, 1.0], [1.0, -1.0]], [[0.0, 0.0], [0.0, 0.0]]], dtype=torch.double\n        )\n        / np.sqrt(2)",
                                       "[[[1.0, 1.0], [1.0, -1.0]], [[0.0, 0.0], [0.0, 0.0]]], dtype=torch.double\n        )\n        / 1.4142")),
+    # ---- C03
+    M("c03-swap-vb-hb-layout", "C03", (BR, "return parameters_to_vector([W_grad, vb_grad, hb_grad])",
+                                       "return parameters_to_vector([W_grad, hb_grad, vb_grad]) if vb_grad.numel() == hb_grad.numel() else parameters_to_vector([W_grad, vb_grad, hb_grad])")),
+    M("c03-rotated-grad-sign", "C03", (DM, '-cplx.einsum("ijb,ijbg->bg", UrhoU_v, g, imag_part=False) for g in raw_grads',
+                                       'cplx.einsum("ijb,ijbg->bg", UrhoU_v, g, imag_part=False) for g in raw_grads')),
+    M("c03-drop-I-ph-grads", "C03", (CW, "            cplx.I,  # need to multiply phase gradient by i\n", "            cplx.make_complex(torch.ones(1)).squeeze(-1).to(torch.double),\n")),
+    M("c03-wrong-mask", "C03", (NS, "sample_grad = self.rotated_gradient(basis, samples[indices == i, :])",
+                                "sample_grad = self.rotated_gradient(basis, samples[indices == (i + 1) % unique_bases.shape[0], :])")),
+    M("c03-positive-phase-const", "C03", (NS, "grad = [gr / float(samples_batch.shape[0]) for gr in grad]",
+                                          "grad = [gr / float(max(samples_batch.shape[0], 2)) for gr in grad]")),
+    M("c03-drop-pi-grad", "C03", (DM, "return self.rbm_am.gamma_grad(v, v, eta=+1, expand=True) + self.pi_grad(\n            v, v, phase=False, expand=True\n        )",
+                                  "return self.rbm_am.gamma_grad(v, v, eta=+1, expand=True)")),
+    M("c03-f5-regression", "C03", (PW, "return super().compute_exact_gradients(samples_batch, space, bases_batch=None)",
+                                   "return super().compute_exact_grads(samples_batch, space, bases_batch=None)")),
+    M("c03-ab-grad-pur-sign", "C03", (PR, "ab_grad = -torch.sum(pa, 0)", "ab_grad = torch.sum(pa, 0)")),
+    M("c03-exact-neg-phase-unnormalised", "C03", (NS, "        probs /= Z\n", "        probs /= (Z if len(space) > 2 else 1.0)\n")),
+    M("c03-pi-grad-phase-U-sign", "C03", (DM, "temp = (v.unsqueeze(1) - vp.unsqueeze(0)) if expand else (v - vp)",
+                                          "temp = (vp.unsqueeze(0) - v.unsqueeze(1)) if expand else (v - vp)")),
+    M("c03-1d-basis-dropped", "C03", (NS, "                bases = np.array(list(bases)).reshape(1, -1)",
+                                      "                bases = np.array(list(bases)).reshape(1, -1)\n                bases[bases == 'Y'] = 'X'")),
+    # ---- C05
+    M("c05-drop-visible-bias-cond", "C05", (BR, "            torch.matmul(h, self.weights.data, out=out)\n            .add_(self.visible_bias.data)",
+                                            "            torch.matmul(h, self.weights.data, out=out)")),
+    M("c05-range-k-minus-1", "C05", (BR, "        for _ in range(k):\n            self.sample_h_given_v(v, out=h)", "        for _ in range(max(k - 1, min(k, 1))):\n            self.sample_h_given_v(v, out=h)")),
+    M("c05-a-conditioned-on-new-v", "C05", (PR, "            self.sample_h_given_v(v, out=h)\n            self.sample_a_given_v(v, out=a)\n            self.sample_v_given_ha(h, a, out=v)",
+                                            "            self.sample_h_given_v(v, out=h)\n            self.sample_v_given_ha(h, a, out=v)\n            self.sample_a_given_v(v, out=a)")),
+    M("c05-overwrite-inverted", "C05", (BR, "v = (initial_state if overwrite else initial_state.clone()).to(self.weights)",
+                                        "v = (initial_state.clone() if overwrite else initial_state).to(self.weights)")),
+    M("c05-pur-no-U-term", "C05", (PR, "            .add_(torch.matmul(a, self.weights_U.data))\n", "")),
+    M("c05-sample-thresholds-instead-of-draws", "C05", (BR, "        v = torch.bernoulli(v, out=out)  # overwrite v with its sample", "        v = torch.bernoulli(v.mul_(0.98).add_(0.01), out=out)  # overwrite v with its sample")),
+    M("c05-pur-hidden-uses-U", "C05", (PR, "            torch.matmul(v, self.weights_W.data.t(), out=out)\n            .add_(self.hidden_bias.data)",
+                                       "            torch.matmul(v, self.weights_W.data.t(), out=out)\n            .add_(self.hidden_bias.data.abs())")),
+    M("c05-probability-temperature", "C05", (NS, "return (-self.rbm_am.effective_energy(v)).exp() / Z", "return (-1.02 * self.rbm_am.effective_energy(v)).exp() / Z")),
 ]
 
 BENIGN = []
